@@ -20,6 +20,9 @@ class ConvertBase:
         buffer = target.empty(len(src))
         for to_, from_ in mapping.items():
             buffer.__setattr__(
-                to_, src.__getattribute__(from_) if isinstance(from_, str) else from_
+                to_,
+                src.__getattribute__(from_).to_numpy()
+                if isinstance(from_, str)
+                else from_,
             )
         return buffer
